@@ -127,6 +127,7 @@ def unit(_=None):
         B = f"({val(cb[0])}, {val(cb[1])})"
         g.add("bls_G2_on_curve", f"f2mul({I(P)}, {Y}, {Y}) == f2add({I(P)}, f2mul({I(P)}, f2mul({I(P)}, {X}, {X}), {X}), {B})", pr,
               "G2 generator satisfies y^2 = x^3 + B' over Fp2 = Fp[u]/(u^2+5)", BLS)
+        g.add("bls_G2_order_r", f"f2z(sw2_smul({I(P)}, {rr}nat, ({X}, {Y}, (1, 0))).2)", pr, "[r]G2 is the point at infinity (Jacobian Z = 0 in Fp2)", BLS)
     # cofactors
     for cfg, ref, nm in (("impl CurveConfig for OurG1Config", g1, "G1"), ("impl CurveConfig for OurG2Config", g2, "G2")):
         cof = s.find_const(cfg, "COFACTOR")
@@ -197,6 +198,46 @@ pub open spec fn sw_add(p: int, a: (int, int, int), b: (int, int, int)) -> (int,
             (x3, y3, z3)
         }
     }
+}
+// the same formulas over Fp2 (the twist E'(Fp2) : y^2 = x^3 + B')
+pub open spec fn f2sub(p: int, a: (int, int), b: (int, int)) -> (int, int) { (msub(p, a.0, b.0), msub(p, a.1, b.1)) }
+pub open spec fn f2z(a: (int, int)) -> bool { a.0 == 0 && a.1 == 0 }
+pub open spec fn sw2_double(p: int, q: ((int, int), (int, int), (int, int))) -> ((int, int), (int, int), (int, int)) {
+    let a = f2mul(p, q.0, q.0);
+    let b = f2mul(p, q.1, q.1);
+    let c = f2mul(p, b, b);
+    let t = f2sub(p, f2sub(p, f2mul(p, f2add(p, q.0, b), f2add(p, q.0, b)), a), c);
+    let d = f2add(p, t, t);
+    let e = f2add(p, f2add(p, a, a), a);
+    let f = f2mul(p, e, e);
+    let x3 = f2sub(p, f, f2add(p, d, d));
+    let y3 = f2sub(p, f2mul(p, e, f2sub(p, d, x3)), f2mul(p, (8, 0), c));
+    let z3 = f2mul(p, f2add(p, q.1, q.1), q.2);
+    (x3, y3, z3)
+}
+pub open spec fn sw2_add(p: int, a: ((int, int), (int, int), (int, int)), b: ((int, int), (int, int), (int, int))) -> ((int, int), (int, int), (int, int)) {
+    if f2z(a.2) { b } else if f2z(b.2) { a } else {
+        let z1z1 = f2mul(p, a.2, a.2);
+        let z2z2 = f2mul(p, b.2, b.2);
+        let u1 = f2mul(p, a.0, z2z2);
+        let u2 = f2mul(p, b.0, z1z1);
+        let s1 = f2mul(p, f2mul(p, a.1, b.2), z2z2);
+        let s2 = f2mul(p, f2mul(p, b.1, a.2), z1z1);
+        if u1 == u2 && s1 == s2 { sw2_double(p, a) } else {
+            let h = f2sub(p, u2, u1);
+            let i = f2mul(p, f2add(p, h, h), f2add(p, h, h));
+            let j = f2mul(p, h, i);
+            let r = f2add(p, f2sub(p, s2, s1), f2sub(p, s2, s1));
+            let v = f2mul(p, u1, i);
+            let x3 = f2sub(p, f2sub(p, f2mul(p, r, r), j), f2add(p, v, v));
+            let y3 = f2sub(p, f2mul(p, r, f2sub(p, v, x3)), f2mul(p, f2add(p, s1, s1), j));
+            let z3 = f2mul(p, f2sub(p, f2sub(p, f2mul(p, f2add(p, a.2, b.2), f2add(p, a.2, b.2)), z1z1), z2z2), h);
+            (x3, y3, z3)
+        }
+    }
+}
+pub open spec fn sw2_smul(p: int, k: nat, g: ((int, int), (int, int), (int, int))) -> ((int, int), (int, int), (int, int)) decreases k {
+    if k == 0 { ((1, 0), (1, 0), (0, 0)) } else if k % 2 == 0 { sw2_double(p, sw2_smul(p, k / 2, g)) } else { sw2_add(p, sw2_double(p, sw2_smul(p, k / 2, g)), g) }
 }
 pub open spec fn sw_smul(p: int, k: nat, g: (int, int, int)) -> (int, int, int) decreases k {
     if k == 0 { (1, 1, 0) } else if k % 2 == 0 { sw_double(p, sw_smul(p, k / 2, g)) } else { sw_add(p, sw_double(p, sw_smul(p, k / 2, g)), g) }
